@@ -159,6 +159,8 @@ def build(tree):
     if k == 'par': return Ppar(*[build(t) for t in tree[1]])
     if k == 'delta': return Pdelta(dec(tree[1]), build(tree[2]))
     if k == 'dur': return Pdur(dec(tree[1]), build(tree[2]))
+    if k == 'durq':      # Pdur(dur, pattern, tolerance, quant)
+        return Pdur(dec(tree[1]), build(tree[4]), dec(tree[2]), None if tree[3] is None else dec(tree[3]))
     if k == 'seq': return Pseq([build(t) for t in tree[1]], int(tree[2]), int(tree[3]))
     if k == 'pn': return Pn(build(tree[1]), int(tree[2]))
     raise ValueError(tree)
